@@ -18,20 +18,36 @@ ID = "C19"
 GENERATORS = [cypher.generate]
 LEAN_MODULES = ["FimVerif.Proofs.C19"]
 P = "FimVerif.C19."
-GOOD_SITES = [
-    "validate_graph", "delete_graph", "get_all_nodes_by_class", "get_all_nodes_by_class_and_type", "list_all_node_ids",
-    "get_node_properties", "get_link_properties", "update_node_property", "unset_node_property", "update_nodes_property",
-    "update_link_property", "unset_link_property", "get_nodes_on_shortest_path", "get_nodes_on_path_with_hops",
-    "get_first_neighbor", "get_first_and_second_neighbor", "delete_node", "node_exists", "find_matching_nodes",
-    "merge_nodes", "get_stitch_nodes", "check_node_unique", "get_graph_diff", "get_graph_property_diff",
-    "add_indexes", "import_graph", "importer_delete_all_graphs", "importer_delete_graph",
-    "cbm_get_intersite_links", "cbm_get_sites", "cbm_get_disconnected_sites", "cbm_get_connected_sites",
-    "cbm_get_facility_ports", "asm_check_node_name", "asm_find_node_by_name"]
-BAD_SITES = ["update_node_properties", "update_link_properties", "add_node", "add_link", "graph_exists",
-             "serialize_graph_probe", "serialize_graph_export", "cbm_get_matching_nodes", "cbm_get_matching_nodes_with_components"]
+# one `_value_free` theorem per call site whose template has no value piece, one `_value_dependent_counterexample` per call site
+# that interpolates a stored value today (the known findings)
+VALUE_FREE_SITES = [
+    "Neo4jPropertyGraph__validate_graph_s0", "Neo4jPropertyGraph_delete_graph_s0",
+    "Neo4jPropertyGraph_get_all_nodes_by_class_s0", "Neo4jPropertyGraph_get_all_nodes_by_class_and_type_s0",
+    "Neo4jPropertyGraph_list_all_node_ids_s0", "Neo4jPropertyGraph_get_node_properties_s0",
+    "Neo4jPropertyGraph_get_link_properties_s0", "Neo4jPropertyGraph_update_node_property_s0",
+    "Neo4jPropertyGraph_unset_node_property_s0", "Neo4jPropertyGraph_update_nodes_property_s0",
+    "Neo4jPropertyGraph_update_link_property_s0", "Neo4jPropertyGraph_unset_link_property_s0",
+    "Neo4jPropertyGraph_graph_exists_s0", "Neo4jPropertyGraph_get_nodes_on_shortest_path_s0",
+    "Neo4jPropertyGraph_get_nodes_on_path_with_hops_s0", "Neo4jPropertyGraph_get_first_neighbor_s0",
+    "Neo4jPropertyGraph_get_first_and_second_neighbor_s0", "Neo4jPropertyGraph_delete_node_s0",
+    "Neo4jPropertyGraph_node_exists_s0", "Neo4jPropertyGraph_find_matching_nodes_s0", "Neo4jPropertyGraph_merge_nodes_s0",
+    "Neo4jPropertyGraph_get_stitch_nodes_s0", "Neo4jPropertyGraph_check_node_unique_s0",
+    "Neo4jPropertyGraph_get_graph_diff_s0", "Neo4jPropertyGraph_get_graph_property_diff_s0",
+    "Neo4jGraphImporter__add_indexes_s0", "Neo4jGraphImporter__import_graph_s0", "Neo4jGraphImporter__import_graph_s1",
+    "Neo4jGraphImporter_delete_all_graphs_s0", "Neo4jGraphImporter_delete_graph_s0", "Neo4jCBMGraph_get_intersite_links_s0",
+    "Neo4jCBMGraph_get_sites_s0", "Neo4jCBMGraph_get_disconnected_sites_s0", "Neo4jCBMGraph_get_connected_sites_s0",
+    "Neo4jCBMGraph_get_facility_ports_s0", "Neo4jASM_check_node_name_s0", "Neo4jASM_find_node_by_name_s0"]
+VALUE_DEPENDENT_SITES = [
+    "Neo4jPropertyGraph_update_node_properties_s0", "Neo4jPropertyGraph_update_link_properties_s0",
+    "Neo4jPropertyGraph_add_node_s0", "Neo4jPropertyGraph_add_link_s0", "Neo4jPropertyGraph_serialize_graph_s0",
+    "Neo4jPropertyGraph_serialize_graph_s1", "Neo4jCBMGraph_get_matching_nodes_with_components_s0"]
 THEOREMS = [P + t for t in (
     ["no_value_piece_data_independent", "value_free_text_depends_only_on_identifiers", "wellformed_extends_to_all_values",
-     "params_supplied", "all_sites_classified", "value_free_except_listed", "data_independent_except_listed"])]
+     "all_sites_classified", "value_free_except_listed", "data_independent_except_listed", "params_supplied",
+     "wellformed_canonical", "wellformed_all_values_except_listed", "injection_rewrites_statement", "leaked_values_exact",
+     "leaks_nil_of_value_free_atom", "data_independent_up_to_leaks_partial"]
+    + [s + "_value_free" for s in VALUE_FREE_SITES]
+    + [s + "_value_dependent_counterexample" for s in VALUE_DEPENDENT_SITES])]
 TRUSTED_BASE = [
     "gen/cypher.py: symbolic evaluation of the string constructions reaching session.run in the five neo4j_*.py modules "
     "(idioms listed in its docstring) and the role table (which method parameters are identifiers, which are values)",
@@ -297,10 +313,10 @@ def calls():
         _simple("update_node_property", "update_node_property", {"prop_name": "props"}, ["node_id", "prop_val"]),
         _simple("unset_node_property", "unset_node_property", {"prop_name": "props_unsettable"}, ["node_id"]),
         _simple("update_nodes_property", "update_nodes_property", {"prop_name": "props"}, ["prop_val"]),
-        _simple("update_node_properties", "update_node_properties", values=["node_id"], maps=["props"]),
+        _simple("update_node_properties", "update_node_properties", values=["node_id"], maps=["props!"]),
         _simple("update_link_property", "update_link_property", {"kind": "rels", "prop_name": "props"}, ["node_a", "node_b", "prop_val"]),
         _simple("unset_link_property", "unset_link_property", {"kind": "rels", "prop_name": "props"}, ["node_a", "node_b"]),
-        _simple("update_link_properties", "update_link_properties", {"kind": "rels"}, ["node_a", "node_b"], ["props"]),
+        _simple("update_link_properties", "update_link_properties", {"kind": "rels"}, ["node_a", "node_b"], ["props!"]),
         Call("serialize_graph", PG, "serialize_graph", expect=lambda c, nv: [(_k(PG, "serialize_graph", 0), 0), (_k(PG, "serialize_graph", 1), 0)]),
         _simple("graph_exists", "graph_exists"),
         Call("get_nodes_on_shortest_path", PG, "get_nodes_on_shortest_path", {"rel": "rels?"}, ["node_a", "node_z"],
@@ -404,6 +420,30 @@ def build_comps(rows):
     return ci
 
 
+_RUN_LINES = {}
+
+
+def site_of(where):
+    """call-site key `Class.method#k` of the backend frame that called run(): k = rank of that line among the run() calls of the
+    function (found with a plain ast scan of the file, independent of the translator)"""
+    import ast
+    fn, line, qual = where
+    if fn not in _RUN_LINES:
+        tab = {}
+        try:
+            tree = ast.parse(open(fn).read())
+            for cls in [n for n in tree.body if isinstance(n, ast.ClassDef)]:
+                for f in [n for n in cls.body if isinstance(n, ast.FunctionDef)]:
+                    lines = sorted({c.lineno for c in ast.walk(f) if isinstance(c, ast.Call) and isinstance(c.func, ast.Attribute)
+                                    and c.func.attr == "run"})
+                    for k, ln in enumerate(lines):
+                        tab[ln] = "%s.%s#%d" % (cls.name, f.name, k)
+        except (OSError, SyntaxError):
+            pass
+        _RUN_LINES[fn] = tab
+    return _RUN_LINES[fn].get(line, "%s@%d" % (qual, line))
+
+
 def drive(case, via=None):
     """run one backend call; -> (recorded [(text, sorted param names, params)], error kind or None)"""
     from fim.graph.neo4j_property_graph import Neo4jGraphImporter
@@ -450,6 +490,7 @@ def drive(case, via=None):
     except Exception as ex:       # the stand-in's canned answers may not satisfy the caller; the statements are what matters
         e = err_kind(ex)
     rec = [(t, sorted(p), p) for t, p in imp.driver.take()]
+    drive.where = [site_of(w) for w in imp.driver.last_where]
     if call.target == "importer":
         Neo4jGraphImporter.index_initialized = True
     return rec, e
@@ -569,8 +610,8 @@ def gen_maps(call, rng, mode, keys=None):
         if keys is not None:
             ks = keys.get(mm)
         elif mm == "props":
-            n = rng.choice([0, 1, 1, 2, 3]) if not must else rng.choice([1, 1, 2, 3])
-            ks = rng.sample(V["props"], n) if (n or must or rng.random() < 0.7) else None
+            n = rng.choice([0, 1, 1, 2, 3])
+            ks = rng.sample(V["props"], n) if (n or must or rng.random() < 0.6) else None     # "!" = the call asserts props is not None
         elif mm == "merge_properties":
             ks = None if rng.random() < 0.3 else rng.sample(MERGE_KEYS, rng.choice([1, 2, 3]))
         else:
@@ -582,7 +623,8 @@ def gen_maps(call, rng, mode, keys=None):
             maps[mm] = [[k, (rng.choice(BENIGN) if mode == "benign" else
                              (fmt(adv_value(rng)) if (must or call.name.startswith("cbm")) else adv_value(rng)))] for k in ks]
         elif mm == "merge_properties":
-            maps[mm] = [[k, rng.choice(MERGE_VALS)] for k in ks]
+            # merge behaviours are identifiers (closed vocabulary): an adversarial run keeps them
+            maps[mm] = [[k[0], k[1]] if isinstance(k, (list, tuple)) else [k, rng.choice(MERGE_VALS)] for k in ks]
         else:
             models = {}
             rows = []
@@ -603,6 +645,8 @@ def map_keys(maps):
             out[m] = None
         elif m == "comps":
             out[m] = [(t, mdl is not None) for t, mdl in rows]
+        elif m == "merge_properties":
+            out[m] = [(k, v) for k, v in rows]
         else:
             out[m] = [k for k, _ in rows]
     return out
@@ -623,12 +667,15 @@ def corpus_cases():
     return out
 
 
-def gen_cases(ctx, tag, per_call_idents, n_values):
+def gen_cases(ctx, tag, per_call_idents, n_values, min_groups=8):
     """-> list of (benign case, [adversarial cases with the same identifiers and map keys])"""
     rng = ctx.sub_rng(tag)
     groups = []
     for call in calls():
         combos, total = ident_choices(call, rng, per_call_idents)
+        # calls with few identifier choices but stored values / mappings get more value assignments
+        if (call.values or call.maps) and len(combos) < min_groups:
+            combos = (combos * min_groups)[:max(min_groups, len(combos))]
         for ids in combos:
             base = {"call": call.name, "idents": ids, "values": gen_values(call, rng, "benign"), "maps": gen_maps(call, rng, "benign")}
             keys = map_keys(base["maps"])
@@ -654,7 +701,7 @@ def correspondence(ctx, res):
     tab = nvariants_table()
     nv = lambda k: tab.get(k, 0)
     driven_keys = set()
-    groups = gen_cases(ctx, "corr", ctx.scale(40, 100000), ctx.scale(2, 8))
+    groups = gen_cases(ctx, "corr", ctx.scale(40, 100000), ctx.scale(2, 6), ctx.scale(8, 40))
     cases = []
     for c in corpus_cases():
         if "base" in c:
@@ -720,63 +767,67 @@ def correspondence(ctx, res):
 # ------------------------------------------------------------------------------------------------------------
 # oracle: the property itself on the implementation
 
-def check_group(base, advs, res, nv):
-    """benign run: well-formed, $names supplied.  adversarial runs (same identifiers, same map keys): the text is the same, or
-    differs only inside string literals that decode back to a supplied value."""
-    call = call_by_name(base["call"])
-    exp = call.expect(base, nv)
-    rec0, _ = drive(base)
-    sites = [e[0] for e in exp]
-    if len(rec0) != len(sites):
-        sites = ["%s.%s#?%d" % (call.cls, call.method, i) for i in range(len(rec0))]
+def check_wellformed(rec0, sites, res, case):
     for (text, pnames, _), site in zip(rec0, sites):
         for d in lint(text, pnames)["defects"]:
             res.violation("C19:%s:%s" % (site, d), "statement handed to the driver is malformed (%s)" % d,
-                          {"kind": "wellformed", "base": base}, observed=text, expected="balanced, expanded, bound, parameters supplied")
+                          case, observed=text, expected="balanced, expanded, bound, parameters supplied")
+
+
+def compare_runs(rec0, sites, rec, supplied_vals, res, case):
+    """the adversarial run must hand over the same texts, or texts that differ only inside string literals which decode back
+    to a supplied value (a correctly escaped literal)"""
+    for (t0, p0, _), (t1, p1, _), site in zip(rec0, rec, sites):
+        if p1 != p0:
+            res.violation("C19:%s:parameter-names" % site, "parameter names depend on stored values", case, observed=p1, expected=p0)
+        if t1 == t0:
+            continue
+        _, s0, c0, l0 = lex(t0)
+        _, s1, c1, l1 = lex(t1)
+        ok = c1 and s0 == s1 and len(l0) == len(l1)
+        if ok:
+            for (q0, a), (q1, b) in zip(l0, l1):
+                if a != b and (q1 == "`" or cypher_unescape(b) not in supplied_vals):
+                    ok = False
+        if not ok:
+            res.violation("C19:%s:value-in-text" % site, "a stored value is interpolated into the statement text without escaping",
+                          case, observed=t1, expected=t0)
+
+
+def check_group(base, advs, res, nv=None):
+    """benign run: well-formed, $names supplied.  adversarial runs (same identifiers, same map keys): the text is the same, or
+    differs only inside string literals that decode back to a supplied value."""
+    call = call_by_name(base["call"])
+    rec0, _ = drive(base)
+    sites = list(drive.where)
+    check_wellformed(rec0, sites, res, {"kind": "wellformed", "base": base})
     for adv in advs:
         rec, _ = drive(adv)
         res.evaluations += 1
         if nontrivial(adv):
             res.nontrivial.add(canon(adv))
+        case = {"kind": "independent", "base": base, "adv": adv}
         if len(rec) != len(rec0):
             res.violation("C19:%s.%s:statement-count" % (call.cls, call.method), "number of statements depends on stored values",
-                          {"kind": "independent", "base": base, "adv": adv}, observed=len(rec), expected=len(rec0))
+                          case, observed=len(rec), expected=len(rec0))
             continue
         supplied_vals = set()
-        for v in list(adv["values"].values()) + [x[1] for m in ("props",) for x in (adv["maps"].get(m) or [])] + \
+        for v in list(adv["values"].values()) + [x[1] for x in (adv["maps"].get("props") or [])] + \
                 [x[1] for x in (adv["maps"].get("comps") or []) if x[1] is not None]:
             supplied_vals.add(fmt(v))
-        for (t0, p0, _), (t1, p1, _), site in zip(rec0, rec, sites):
-            if t1 == t0:
-                continue
-            _, s0, c0, l0 = lex(t0)
-            _, s1, c1, l1 = lex(t1)
-            ok = c1 and s0 == s1 and len(l0) == len(l1)
-            if ok:
-                for (q0, a), (q1, b) in zip(l0, l1):
-                    if a != b and (q1 == "`" or cypher_unescape(b) not in supplied_vals):
-                        ok = False
-            if not ok:
-                res.violation("C19:%s:value-in-text" % site,
-                              "a stored value is interpolated into the statement text without escaping",
-                              {"kind": "independent", "base": base, "adv": adv}, observed=t1, expected=t0)
-            if p1 != p0:
-                res.violation("C19:%s:parameter-names" % site, "parameter names depend on stored values",
-                              {"kind": "independent", "base": base, "adv": adv}, observed=p1, expected=p0)
+        compare_runs(rec0, sites, rec, supplied_vals, res, case)
 
 
 def oracle(ctx, res, per_call=None, n_values=None):
-    tab = nvariants_table() if not getattr(ctx, "_c19_tab", None) else ctx._c19_tab
-    nv = lambda k: tab.get(k, 0)
     # deterministic corpus first (the known findings' triggering cases live there)
     for c in corpus_cases():
         if "base" in c:
-            check_group(c["base"], c.get("advs", []), res, nv)
+            check_group(c["base"], c.get("advs", []), res)
             res.count("corpus")
-    groups = gen_cases(ctx, "oracle", per_call or ctx.scale(25, 100000), n_values or ctx.scale(6, 30))
+    groups = gen_cases(ctx, "oracle", per_call or ctx.scale(25, 100000), n_values or ctx.scale(6, 20), ctx.scale(10, 60))
     for base, advs in groups:
         res.count("call:" + base["call"])
-        check_group(base, advs, res, nv)
+        check_group(base, advs, res)
     # compound operations: every statement they issue must be well-formed
     compound(ctx, res)
     if groups:
@@ -784,27 +835,61 @@ def oracle(ctx, res, per_call=None, n_values=None):
         res.sample({"base": b, "adversarial": a[:1]})
 
 
-def compound(ctx, res):
-    """merge_adm / unmerge_adm / clone-free bookkeeping of the CBM, driven with canned answers; lint on everything they issue"""
+def _compound_run(kind, ids):
+    """merge_adm / unmerge_adm of the CBM against canned answers built from `ids` (graph ids, node ids, names)"""
+    import io
+    import networkx as nx
     from fim.slivers.capacities_labels import StructuralInfo
-    rng = ctx.sub_rng("compound")
-    for i in range(ctx.scale(6, 60)):
-        adm_id = fmt(adv_value(rng)) or "adm"
-        si = StructuralInfo(adm_graph_ids=[adm_id, "other"]).to_json()
-        canned = {"node_props": {"Name": fmt(adv_value(rng)), "Class": "NetworkNode", "Type": "Server", "StructuralInfo": si},
-                  "nodeids": ["n1", fmt(adv_value(rng))]}
-        imp = fake.make_importer(canned)
-        cbm = make_graph("Neo4jCBMGraph", fmt(adv_value(rng)) or "cbm", imp)
-        try:
+    cbm_id, adm_id, n1, n2, name = ids
+    si = StructuralInfo(adm_graph_ids=[adm_id, "other"]).to_json()
+    g = nx.Graph()
+    g.add_node(1, GraphID=adm_id, NodeID=n1, Class="NetworkNode", Name=name, Type="Server")
+    g.add_node(2, GraphID=adm_id, NodeID=n2, Class="Component", Name=name, Type="GPU")
+    g.add_edge(1, 2, Class="has")
+    buf = io.BytesIO()
+    nx.write_graphml(g, buf)
+    canned = {"graphml": buf.getvalue().decode(), "nodeids": [n1, n2], "common_ids": [n1],
+              "node_props": {"Name": name, "Class": "NetworkNode", "Type": "Server", "StructuralInfo": si}}
+    imp = fake.make_importer(canned)
+    cbm = make_graph("Neo4jCBMGraph", cbm_id, imp)
+    e = None
+    try:
+        if kind == "merge_adm":
+            # uuid4 gives the temporary graph a fresh id on every run; pin it so that two runs are comparable
+            import uuid
+            orig = uuid.uuid4
+            uuid.uuid4 = lambda: "00000000-0000-4000-8000-000000000000"
+            try:
+                cbm.merge_adm(adm=make_graph("Neo4jADMGraph", adm_id, imp))
+            finally:
+                uuid.uuid4 = orig
+        else:
             cbm.unmerge_adm(graph_id=adm_id)
-        except Exception as e:
-            res.count("compound-err:" + err_kind(e))
-        for text, p in imp.driver.take():
+    except Exception as ex:
+        e = err_kind(ex)
+    rec = [(t, sorted(p), p) for t, p in imp.driver.take()]
+    return rec, [site_of(w) for w in imp.driver.last_where], e
+
+
+def compound(ctx, res):
+    """the CBM's compound operations (clone, import bookkeeping, delegation rewrite, node merge, unmerge): every statement they
+    issue is well-formed, and issuing them with adversarial graph ids / node ids / names changes no statement text"""
+    rng = ctx.sub_rng("compound")
+    benign = ("cbm1", "adm1", "n1", "n2", "alpha")
+    for kind in ("merge_adm", "unmerge_adm"):
+        rec0, sites, e0 = _compound_run(kind, benign)
+        res.count("compound:%s:%d-statements" % (kind, len(rec0)))
+        if e0:
+            res.count("compound-err:" + e0)
+        check_wellformed(rec0, sites, res, {"kind": "compound", "op": kind, "ids": list(benign)})
+        for i in range(ctx.scale(4, 40)):
+            ids = tuple((fmt(adv_value(rng)) or "z") + str(j) for j in range(5))
+            rec, _, e = _compound_run(kind, ids)
             res.evaluations += 1
-            res.count("compound-stmt")
-            for d in lint(text, sorted(p))["defects"]:
-                res.violation("C19:Neo4jCBMGraph.unmerge_adm:%s" % d, "statement issued during unmerge_adm is malformed (%s)" % d,
-                              {"kind": "compound", "adm_id": adm_id}, observed=text)
+            if len(rec) != len(rec0):
+                res.count("compound-skip")
+                continue
+            compare_runs(rec0, sites, rec, set(ids), res, {"kind": "compound", "op": kind, "ids": list(ids), "base_ids": list(benign)})
 
 
 def search(ctx, res, broken):
@@ -812,13 +897,19 @@ def search(ctx, res, broken):
 
 
 def replay(ctx, payload):
-    tab = nvariants_table()
     r = Result()
     c = payload["case"]
     if c.get("kind") == "wellformed":
-        check_group(c["base"], [], r, lambda k: tab.get(k, 0))
+        check_group(c["base"], [], r)
     elif c.get("kind") == "independent":
-        check_group(c["base"], [c["adv"]], r, lambda k: tab.get(k, 0))
+        check_group(c["base"], [c["adv"]], r)
+    elif c.get("kind") == "compound":
+        rec0, sites, _ = _compound_run(c["op"], tuple(c.get("base_ids", c["ids"])))
+        check_wellformed(rec0, sites, r, c)
+        if "base_ids" in c:
+            rec, _, _ = _compound_run(c["op"], tuple(c["ids"]))
+            if len(rec) == len(rec0):
+                compare_runs(rec0, sites, rec, set(c["ids"]), r, c)
     else:
         return False
     for v in r.violations:
